@@ -129,6 +129,8 @@ pub enum Constraint {
     Range { lo: Option<i128>, hi: Option<i128>, ext: bool },
     Single { v: i128, ext: bool },
     Size { lo: u32, hi: Option<u32>, ext: bool },
+    /// inner type constraint directly on a SEQUENCE / SET definition: `(WITH COMPONENTS { ..., name PRESENT|ABSENT })`
+    Inner { comps: Vec<(String, bool)> },
 }
 impl Constraint {
     pub fn tokens(&self, out: &mut Vec<String>) {
@@ -150,6 +152,17 @@ impl Constraint {
                     out.push(",".into());
                     out.push("...".into());
                 }
+            }
+            Constraint::Inner { comps } => {
+                for w in ["WITH", "COMPONENTS", "{", "..."] {
+                    out.push(w.into());
+                }
+                for (n, present) in comps {
+                    out.push(",".into());
+                    out.push(n.clone());
+                    out.push(if *present { "PRESENT" } else { "ABSENT" }.into());
+                }
+                out.push("}".into());
             }
             Constraint::Size { lo, hi, ext } => {
                 out.push("SIZE".into());
@@ -1807,6 +1820,21 @@ pub fn assoc_import_set(rng: &mut Rng) -> ModuleSet {
         oid: None,
     };
     let a = MModule { name: "Mq1".into(), tagging: Tagging::Automatic, ext_implied: false, imports: vec![], assigns: a_assigns, oid: if rng.chance(1, 2) { Some(1) } else { None } };
+    if rng.chance(1, 3) {
+        // three modules: the values live in Mq3, their governing types in Mq1; Mq2 imports the values (from Mq3) only, so the
+        // associated types come from a module Mq2 has no IMPORTS clause for
+        let mut a = a;
+        let mut b = b;
+        let (types, values): (Vec<Assign>, Vec<Assign>) = a.assigns.drain(..).partition(|x| matches!(x, Assign::Type { .. }));
+        let type_names: Vec<String> = types.iter().map(|t| t.name().to_string()).collect();
+        a.assigns = types;
+        let v = MModule { name: "Mq3".into(), tagging: Tagging::Automatic, ext_implied: false, imports: vec![("Mq1".into(), type_names.clone())], assigns: values, oid: None };
+        for (from, syms) in b.imports.iter_mut() {
+            *from = "Mq3".into();
+            syms.retain(|s| !type_names.contains(s));
+        }
+        return ModuleSet { modules: vec![a, b, v] };
+    }
     ModuleSet { modules: vec![a, b] }
 }
 
